@@ -1,10 +1,758 @@
-//! C04 — (stub; filled in during the build phase)
+//! C04 — accepted programs are well-formed; every rule violation is diagnosed (with a code that belongs to a rule
+//! the program actually violates).
 
 use super::PropMeta;
 use crate::engine::*;
+use crate::model::ast::*;
+use crate::model::gen;
+use crate::model::print::*;
+use crate::model::rules;
+use crate::model::run::*;
+use crate::util::*;
+use serde_json::Value;
+use std::collections::BTreeSet;
 
-pub fn meta(_m: &mut PropMeta) {}
+pub fn meta(m: &mut PropMeta) {
+    m.rule = "complete small-scope families per rule: every (tag in {none,0,1,1 again,2^31-1,2^31,-1}, optional?) assignment over <= 3 members in each member container (struct, compact struct, parameters, return tuple, enumerator fields of plain/compact enums); every enumerator value shape at min-1,min,max,max+1 of every integral primitive and of the no-underlying range, duplicates, fields, implicit overflow x checked/unchecked x compact x all 16 primitives + none x optional underlying; every key type (primitives, optional, sequences/dictionaries/results, compact/non-compact key structs with legal/illegal/optional/nested fields, enums with/without underlying, custom, aliases of each) in 5 dictionary positions; every stream placement over <= 3 parameters and return members; return tuples of 0/1/2; every duplicate-name placement (definitions across files of one module, fields, operations, parameters, return members, enumerators, enumerator fields, inherited operations through single and diamond inheritance); alias of optional; definitions without a module; every known attribute x 12 targets x argument lists of 0..3 legal/illegal arguments x repeated; malformed integer literals; and deviation-bounded pairs: every ordered pair drawn from 40 well-formed constructs + 30 single-rule violators (two injected violations interact through phase gating). Oracle: independent reference checker over the model (rule catalogue with the codes that belong to each rule): model well-formed => no Error; model ill-formed => at least one Error and every reported Error code belongs to a violated rule. non-trivial = ill-formed, or well-formed at a boundary value; distinct = distinct rendered programs.";
+    m.explanation = "per-rule exhaustive small-scope families and violation pairs against an independent reference validator";
+    m.quick_bound = "<= 3 members per container; pairs of (valid + violating) constructs";
+    m.thorough_bound = "same families; plus triples of violating constructs";
+}
 
-pub fn families(_tier: &str) -> Vec<Box<dyn Family>> {
-    vec![]
+pub trait RuleFamily: Sync + Send {
+    fn name(&self) -> String;
+    fn len(&self) -> u64;
+    fn get(&self, idx: u64) -> (Program, String);
+}
+
+pub struct RuleCheck {
+    pub inner: Box<dyn RuleFamily>,
+}
+
+pub fn check_rules(program: &Program, layout: &Layout, fam: &str, out: &mut CaseOut) -> String {
+    let violations = rules::check(program);
+    let allowed: BTreeSet<&str> = violations.iter().map(|v| v.code).collect();
+    let rendered = render_program(program, layout);
+    let texts: Vec<String> = rendered.iter().map(|r| r.text.clone()).collect();
+    let input = || texts.join("\n--- next file ---\n");
+    out.steps += 1;
+    match compile_rendered(rendered, None) {
+        Err((loc, msg)) => {
+            out.violate(format!("c04/{fam}/panic@{loc}"), format!("panic at {loc}: {msg}\n--- input ---\n{}", input()));
+            "panic".into()
+        }
+        Ok(c) => {
+            let errs = c.errors();
+            if violations.is_empty() {
+                if let Some(e) = errs.first() {
+                    out.violate(format!("c04/{fam}/well-formed-rejected/{}", e.code), format!("the program satisfies every rule but was rejected: {} {}\n--- input ---\n{}", e.code, e.message, input()));
+                    return format!("wrongly-rejected:{}", e.code);
+                }
+                "accepted".into()
+            } else {
+                if errs.is_empty() {
+                    let rules_: BTreeSet<&str> = violations.iter().map(|v| v.rule).collect();
+                    out.violate(
+                        format!("c04/{fam}/ill-formed-accepted/{}", violations[0].code),
+                        format!("the program violates {:?} (codes {:?}) but was accepted without an error\n--- input ---\n{}", rules_, allowed, input()),
+                    );
+                    return "wrongly-accepted".into();
+                }
+                for e in &errs {
+                    if !allowed.contains(e.code.as_str()) {
+                        out.violate(
+                            format!("c04/{fam}/code-of-a-rule-not-violated/{}", e.code),
+                            format!("reported {} ({}) but the program only violates rules with codes {:?}\n--- input ---\n{}", e.code, e.message, allowed, input()),
+                        );
+                    }
+                }
+                let mut codes: Vec<&str> = errs.iter().map(|e| e.code.as_str()).collect();
+                codes.sort();
+                codes.dedup();
+                format!("rejected:{}", codes.join(","))
+            }
+        }
+    }
+}
+
+impl Family for RuleCheck {
+    fn name(&self) -> String {
+        self.inner.name()
+    }
+    fn len(&self) -> u64 {
+        self.inner.len()
+    }
+    fn describe(&self, idx: u64) -> Value {
+        let (p, label) = self.inner.get(idx);
+        let c = PCase { program: p, layout: Layout::uniform(Sep::Space, Commas::None), label, may_warn: true };
+        describe_case(&c)
+    }
+    fn run(&self, idx: u64) -> CaseOut {
+        let (p, _) = self.inner.get(idx);
+        let layout = if idx % 5 == 4 { Layout::uniform(Sep::Newline, Commas::Between) } else { Layout::uniform(Sep::Space, Commas::None) };
+        let rendered = render_program(&p, &layout);
+        let mut out = CaseOut::new(case_hash(&rendered));
+        out.steps = 0;
+        out.validated = 1;
+        let fam = self.inner.name();
+        let fam = fam.split('/').next().unwrap().to_string();
+        out.class = check_rules(&p, &layout, &fam, &mut out);
+        out.nontrivial = out.class != "accepted" || fam.contains("boundary");
+        out
+    }
+}
+
+// ---------------------------------------------------------------------------------------------------------------
+
+fn tag_choice(c: u64) -> Option<MInt> {
+    match c {
+        0 => None,
+        1 => Some(MInt::dec(0)),
+        2 => Some(MInt::dec(1)),
+        3 => Some(MInt::dec(1)), // "1 again"
+        4 => Some(MInt::dec(2147483647)),
+        5 => Some(MInt::dec(2147483648)),
+        _ => Some(MInt::spelled(-1, "-1")),
+    }
+}
+
+/// Every tag/optional assignment over <= 3 members in each member container.
+pub struct Tags;
+const CONTAINERS: u64 = 6;
+impl RuleFamily for Tags {
+    fn name(&self) -> String {
+        "tags/every (tag, optional) assignment over <= 3 members x 6 containers".into()
+    }
+    fn len(&self) -> u64 {
+        // members n in 1..=3: 14^n
+        (14 + 14 * 14 + 14 * 14 * 14) * CONTAINERS
+    }
+    fn get(&self, idx: u64) -> (Program, String) {
+        let cont = idx % CONTAINERS;
+        let mut i = idx / CONTAINERS;
+        let n = if i < 14 {
+            1
+        } else if {
+            i -= 14;
+            i < 196
+        } {
+            2
+        } else {
+            i -= 196;
+            3
+        };
+        let mut members = vec![];
+        for k in 0..n {
+            let c = i % 14;
+            i /= 14;
+            let tag = tag_choice(c % 7);
+            let optional = c / 7 == 1;
+            let ty = if optional { MType::prim("int32").opt() } else { MType::prim("int32") };
+            members.push((format!("m{k}"), tag, ty));
+        }
+        let fields: Vec<MField> = members.iter().map(|(n, t, ty)| MField { c: MCommon::new(n), tag: t.clone(), ty: ty.clone() }).collect();
+        let params: Vec<MParam> = members.iter().map(|(n, t, ty)| MParam { attrs: vec![], name: MIdent::new(n), tag: t.clone(), stream: false, ty: ty.clone(), doc: MDoc::default() }).collect();
+        let mut f = MFile::module("M");
+        let d = match cont {
+            0 => st("S", fields),
+            1 => cst("S", fields),
+            2 => iface("I", vec![], vec![op("o", params, MRet::None)]),
+            3 => {
+                if params.len() == 1 {
+                    iface("I", vec![], vec![op("o", vec![], MRet::Single { tag: params[0].tag.clone(), stream: false, ty: params[0].ty.clone() })])
+                } else {
+                    iface("I", vec![], vec![op("o", vec![], MRet::Tuple(params))])
+                }
+            }
+            4 => en("E", None, vec![MEnumerator { c: MCommon::new("A"), fields: Some(fields), value: None }]),
+            _ => {
+                let mut d = en("E", None, vec![MEnumerator { c: MCommon::new("A"), fields: Some(fields), value: None }]);
+                if let MDef::Enum(e) = &mut d {
+                    e.compact = true;
+                }
+                d
+            }
+        };
+        f.defs.push(d);
+        (vec![f], format!("container {cont}, members {:?}", members.iter().map(|(n, t, ty)| format!("{n}: tag {:?} optional {}", t.as_ref().map(|t| t.spelling.clone()), ty.optional)).collect::<Vec<_>>()))
+    }
+}
+
+/// Enumerator values at the boundaries of every underlying type.
+pub struct EnumBounds;
+const SHAPES: u64 = 12;
+impl RuleFamily for EnumBounds {
+    fn name(&self) -> String {
+        "enum-boundary/17 underlying choices x optional x unchecked x compact x 12 enumerator shapes".into()
+    }
+    fn len(&self) -> u64 {
+        17 * 2 * 2 * 2 * SHAPES
+    }
+    fn get(&self, idx: u64) -> (Program, String) {
+        let u = (idx % 17) as usize;
+        let opt = (idx / 17) % 2 == 1;
+        let unchecked = (idx / 34) % 2 == 1;
+        let compact = (idx / 68) % 2 == 1;
+        let shape = idx / 136;
+        let prim = if u < 16 { Some(PRIMITIVES[u]) } else { None };
+        let (lo, hi) = prim.and_then(prim_bounds).unwrap_or((0, i32::MAX as i128));
+        let e = |n: &str, v: Option<i128>| MEnumerator { c: MCommon::new(n), fields: None, value: v.map(|x| MInt::spelled(x, &x.to_string())) };
+        let ens: Vec<MEnumerator> = match shape {
+            0 => vec![],
+            1 => vec![e("A", Some(lo - 1))],
+            2 => vec![e("A", Some(lo))],
+            3 => vec![e("A", Some(hi))],
+            4 => vec![e("A", Some(hi + 1))],
+            5 => vec![e("A", Some(lo)), e("B", Some(hi))],
+            6 => vec![e("A", Some(0)), e("B", Some(0))],
+            7 => vec![MEnumerator { c: MCommon::new("A"), fields: Some(vec![MField::new("x", MType::prim("int32"))]), value: None }],
+            8 => vec![e("A", None), e("B", None)],
+            9 => vec![e("A", Some(hi)), e("B", None)],
+            10 => vec![MEnumerator { c: MCommon::new("A"), fields: Some(vec![]), value: None }, e("B", Some(1))],
+            _ => vec![e("A", Some(1)), e("B", Some(0)), e("C", None)],
+        };
+        let mut d = en("E", prim.map(|p| if opt { MType::prim(p).opt() } else { MType::prim(p) }), ens);
+        if let MDef::Enum(x) = &mut d {
+            x.unchecked = unchecked;
+            x.compact = compact;
+        }
+        let mut f = MFile::module("M");
+        f.defs.push(d);
+        (vec![f], format!("underlying {prim:?} optional {opt} unchecked {unchecked} compact {compact} shape {shape}"))
+    }
+}
+
+/// Dictionary key types.
+pub struct Keys {
+    keys: Vec<MType>,
+}
+impl Keys {
+    pub fn new() -> Self {
+        let mut k: Vec<MType> = PRIMITIVES.iter().map(|p| MType::prim(p)).collect();
+        k.push(MType::prim("int32").opt());
+        k.push(MType::seq(MType::prim("int32")));
+        k.push(MType::dict(MType::prim("int32"), MType::prim("int32")));
+        k.push(MType::result(MType::prim("int32"), MType::prim("int32")));
+        for n in ["KOk", "KOk2", "KNonCompact", "KFloat", "KOptField", "KSeqField", "KNestedBad", "KNestedOk", "EBacked", "EPlain", "EFields", "CT", "AKOk", "AKBad", "AInt", "AFloat", "ASeq", "AEPlain"] {
+            k.push(MType::named(n));
+        }
+        k.push(MType::named("KOk").opt());
+        k.push(MType::named("AInt").opt());
+        Keys { keys: k }
+    }
+    fn lib() -> Vec<MDef> {
+        vec![
+            cst("KOk", vec![MField::new("a", MType::prim("int32")), MField::new("b", MType::prim("string"))]),
+            cst("KOk2", vec![MField::new("a", MType::named("EBacked")), MField::new("b", MType::named("CT"))]),
+            st("KNonCompact", vec![MField::new("a", MType::prim("int32"))]),
+            cst("KFloat", vec![MField::new("a", MType::prim("float32"))]),
+            cst("KOptField", vec![MField::new("a", MType::prim("int32").opt())]),
+            cst("KSeqField", vec![MField::new("a", MType::seq(MType::prim("int32")))]),
+            cst("KNestedBad", vec![MField::new("a", MType::named("KFloat"))]),
+            cst("KNestedOk", vec![MField::new("a", MType::named("KOk")), MField::new("b", MType::named("AInt"))]),
+            en("EBacked", Some(MType::prim("uint8")), vec![enumerator("A")]),
+            en("EPlain", None, vec![enumerator("A")]),
+            en("EFields", None, vec![MEnumerator { c: MCommon::new("A"), fields: Some(vec![MField::new("x", MType::prim("int32"))]), value: None }]),
+            custom("CT"),
+            alias("AKOk", MType::named("KOk")),
+            alias("AKBad", MType::named("KNonCompact")),
+            alias("AInt", MType::prim("int64")),
+            alias("AFloat", MType::prim("float64")),
+            alias("ASeq", MType::seq(MType::prim("uint8"))),
+            alias("AEPlain", MType::named("EPlain")),
+        ]
+    }
+}
+const KEY_POSITIONS: u64 = 6;
+impl RuleFamily for Keys {
+    fn name(&self) -> String {
+        format!("dictionary-keys/{} key types x 6 dictionary positions", self.keys.len())
+    }
+    fn len(&self) -> u64 {
+        self.keys.len() as u64 * KEY_POSITIONS
+    }
+    fn get(&self, idx: u64) -> (Program, String) {
+        let k = &self.keys[(idx / KEY_POSITIONS) as usize];
+        let pos = idx % KEY_POSITIONS;
+        let d = MType::dict(k.clone(), MType::prim("int32"));
+        let mut f = MFile::module("M");
+        f.defs.extend(Self::lib());
+        let user = match pos {
+            0 => st("U", vec![MField::new("f", d)]),
+            1 => st("U", vec![MField::new("f", MType::seq(d).opt())]),
+            2 => alias("U", d),
+            3 => iface("U", vec![], vec![op("o", vec![MParam::new("p", d)], MRet::Single { tag: None, stream: false, ty: MType::prim("bool") })]),
+            4 => st("U", vec![MField::new("f", MType::dict(MType::prim("string"), d))]),
+            _ => {
+                // the dictionary reached through an alias, used twice
+                f.defs.push(alias("AD", d));
+                st("U", vec![MField::new("f", MType::named("AD")), MField::new("g", MType::seq(MType::named("AD")))])
+            }
+        };
+        f.defs.push(user);
+        (vec![f], format!("key {:?} position {pos}", k.kind))
+    }
+}
+
+/// Stream placements and return tuples.
+pub struct Streams;
+impl RuleFamily for Streams {
+    fn name(&self) -> String {
+        "stream-placement/every stream flag assignment over 0..3 parameters x 0..3 return members (single return and tuples of 0,1,2,3)".into()
+    }
+    fn len(&self) -> u64 {
+        15 * 16
+    }
+    fn get(&self, idx: u64) -> (Program, String) {
+        // parameters: n in 0..=3 with flags: 1+2+4+8 = 15 ; returns: none, single(2 flags), tuple n in 0..=3 (1+2+4+8=15) -> 1+... use 16: 0 none, 1..=15 tuple shapes where shape 1 (n=0) .. ; single return handled as shapes 16.. via idx parity
+        let pi = idx % 15;
+        let ri = idx / 15;
+        let decode = |mut i: u64| -> Vec<bool> {
+            let mut n = 0;
+            let mut size = 1;
+            while i >= size {
+                i -= size;
+                n += 1;
+                size *= 2;
+            }
+            (0..n).map(|k| (i >> k) & 1 == 1).collect()
+        };
+        let pflags = decode(pi);
+        let params: Vec<MParam> = pflags.iter().enumerate().map(|(k, s)| MParam { attrs: vec![], name: MIdent::new(&format!("p{k}")), tag: None, stream: *s, ty: MType::prim("int32"), doc: MDoc::default() }).collect();
+        let ret = if ri == 15 {
+            MRet::None
+        } else {
+            let rflags = decode(ri);
+            if rflags.len() == 1 && pi % 2 == 0 {
+                MRet::Single { tag: None, stream: rflags[0], ty: MType::prim("string") }
+            } else {
+                MRet::Tuple(rflags.iter().enumerate().map(|(k, s)| MParam { attrs: vec![], name: MIdent::new(&format!("r{k}")), tag: None, stream: *s, ty: MType::prim("string"), doc: MDoc::default() }).collect())
+            }
+        };
+        let mut f = MFile::module("M");
+        f.defs.push(iface("I", vec![], vec![op("o", params, ret)]));
+        (vec![f], format!("param stream flags {pflags:?}, return shape {ri}"))
+    }
+}
+
+/// Duplicate-name placements, inherited operations, alias of optional, missing module.
+pub struct Names;
+impl RuleFamily for Names {
+    fn name(&self) -> String {
+        "names-and-structure/duplicate definitions (same and different kinds, one and two files), fields, operations, parameters, return members, enumerators, enumerator fields, inherited operations (single, transitive, diamond), alias of optional, definitions without a module".into()
+    }
+    fn len(&self) -> u64 {
+        26
+    }
+    fn get(&self, idx: u64) -> (Program, String) {
+        let mut f = MFile::module("M");
+        let mut g = MFile::module("M");
+        let mut two = false;
+        let i32t = || MType::prim("int32");
+        let label;
+        match idx {
+            0 => {
+                f.defs.push(st("D", vec![]));
+                f.defs.push(st("D", vec![]));
+                label = "two structs D in one file";
+            }
+            1 => {
+                f.defs.push(st("D", vec![]));
+                f.defs.push(custom("D"));
+                label = "struct D and custom D";
+            }
+            2 => {
+                f.defs.push(st("D", vec![]));
+                g.defs.push(iface("D", vec![], vec![]));
+                two = true;
+                label = "struct D and interface D in two files of module M";
+            }
+            3 => {
+                f.defs.push(st("D", vec![]));
+                g = MFile::module("N");
+                g.defs.push(st("D", vec![]));
+                two = true;
+                label = "struct D in modules M and N (legal)";
+            }
+            4 => {
+                f.defs.push(st("S", vec![MField::new("a", i32t()), MField::new("a", MType::prim("string"))]));
+                label = "duplicate field";
+            }
+            5 => {
+                f.defs.push(st("S", vec![MField::new("a", i32t())]));
+                f.defs.push(st("T", vec![MField::new("a", i32t())]));
+                label = "same field name in two structs (legal)";
+            }
+            6 => {
+                f.defs.push(iface("I", vec![], vec![op("o", vec![], MRet::None), op("o", vec![MParam::new("x", i32t())], MRet::None)]));
+                label = "duplicate operation";
+            }
+            7 => {
+                f.defs.push(iface("I", vec![], vec![op("o", vec![MParam::new("x", i32t()), MParam::new("x", i32t())], MRet::None)]));
+                label = "duplicate parameter";
+            }
+            8 => {
+                f.defs.push(iface("I", vec![], vec![op("o", vec![], MRet::Tuple(vec![MParam::new("x", i32t()), MParam::new("x", i32t())]))]));
+                label = "duplicate return member";
+            }
+            9 => {
+                f.defs.push(en("E", None, vec![enumerator("A"), enumerator("A")]));
+                label = "duplicate enumerator";
+            }
+            10 => {
+                f.defs.push(en("E", None, vec![MEnumerator { c: MCommon::new("A"), fields: Some(vec![MField::new("x", i32t()), MField::new("x", i32t())]), value: None }]));
+                label = "duplicate enumerator field";
+            }
+            11 => {
+                f.defs.push(en("E", None, vec![MEnumerator { c: MCommon::new("A"), fields: Some(vec![MField::new("x", i32t())]), value: None }, MEnumerator { c: MCommon::new("B"), fields: Some(vec![MField::new("x", i32t())]), value: None }]));
+                label = "same field name in two enumerators (legal)";
+            }
+            12 => {
+                f.defs.push(iface("B", vec![], vec![op("o", vec![], MRet::None)]));
+                f.defs.push(iface("I", vec![MType::named("B")], vec![op("o", vec![], MRet::None)]));
+                label = "redeclared inherited operation";
+            }
+            13 => {
+                f.defs.push(iface("A", vec![], vec![op("o", vec![], MRet::None)]));
+                f.defs.push(iface("B", vec![MType::named("A")], vec![]));
+                f.defs.push(iface("I", vec![MType::named("B")], vec![op("o", vec![], MRet::None)]));
+                label = "redeclared transitively inherited operation";
+            }
+            14 => {
+                f.defs.push(iface("A", vec![], vec![op("o", vec![], MRet::None)]));
+                f.defs.push(iface("B", vec![MType::named("A")], vec![op("b", vec![], MRet::None)]));
+                f.defs.push(iface("C", vec![MType::named("A")], vec![op("c", vec![], MRet::None)]));
+                f.defs.push(iface("I", vec![MType::named("B"), MType::named("C")], vec![op("i", vec![], MRet::None)]));
+                label = "diamond inheritance (legal)";
+            }
+            15 => {
+                f.defs.push(iface("A", vec![], vec![op("o", vec![], MRet::None)]));
+                f.defs.push(iface("B", vec![MType::named("A")], vec![op("b", vec![], MRet::None)]));
+                f.defs.push(iface("C", vec![MType::named("A")], vec![op("c", vec![], MRet::None)]));
+                f.defs.push(iface("I", vec![MType::named("B"), MType::named("C")], vec![op("c", vec![], MRet::None)]));
+                label = "diamond inheritance redeclaring an inherited operation";
+            }
+            16 => {
+                f.defs.push(iface("A", vec![], vec![op("o", vec![], MRet::None)]));
+                g.defs.push(iface("I", vec![MType::named("A")], vec![op("o", vec![], MRet::None)]));
+                two = true;
+                label = "redeclared inherited operation, base in another file";
+            }
+            17 => {
+                f.defs.push(alias("A", i32t().opt()));
+                label = "alias of optional primitive";
+            }
+            18 => {
+                f.defs.push(alias("A", MType::seq(i32t()).opt()));
+                label = "alias of optional sequence";
+            }
+            19 => {
+                f.defs.push(alias("A", MType::seq(i32t().opt())));
+                label = "alias of sequence of optional (legal)";
+            }
+            20 => {
+                f.module = None;
+                f.defs.push(st("S", vec![]));
+                label = "definition without a module";
+            }
+            21 => {
+                f.module = None;
+                label = "empty file without a module (legal)";
+            }
+            22 => {
+                f.defs.push(st("S", vec![]));
+                g.module = None;
+                g.defs.push(custom("C"));
+                two = true;
+                label = "second file without a module";
+            }
+            23 => {
+                f.defs.push(iface("I", vec![], vec![op("o", vec![MParam::new("x", i32t())], MRet::Tuple(vec![MParam::new("y", i32t()), MParam::new("z", i32t())])), op("p", vec![MParam::new("x", i32t())], MRet::None)]));
+                label = "same parameter name in two operations (legal)";
+            }
+            24 => {
+                f.defs.push(st("S", vec![MField::new("S", i32t())]));
+                label = "field named like its struct (legal)";
+            }
+            _ => {
+                f.defs.push(st("a", vec![]));
+                f.defs.push(st("A", vec![]));
+                label = "names differing in case (legal)";
+            }
+        }
+        (if two { vec![f, g] } else { vec![f] }, label.to_string())
+    }
+}
+
+/// Known attributes x targets x argument lists.
+pub struct Attributes {
+    forms: Vec<MAttr>,
+}
+impl Attributes {
+    pub fn new() -> Self {
+        let mut forms = vec![];
+        let id = |s: &str| MArg::Ident(s.to_string());
+        let arg_lists: Vec<Option<Vec<MArg>>> = vec![
+            None,
+            Some(vec![]),
+            Some(vec![id("Args")]),
+            Some(vec![id("Return")]),
+            Some(vec![id("Args"), id("Return")]),
+            Some(vec![id("Args"), id("Args"), id("Return")]),
+            Some(vec![id("Bogus")]),
+            Some(vec![id("All")]),
+            Some(vec![id("Deprecated"), id("BrokenDocLink")]),
+            Some(vec![id("DuplicateFile")]),
+            Some(vec![id("deprecated")]),
+            Some(vec![MArg::Str("a reason".into())]),
+            Some(vec![MArg::Str("a".into()), MArg::Str("b".into())]),
+            Some(vec![id("args")]),
+        ];
+        for d in ["allow", "compress", "deprecated", "oneway", "slicedFormat", "bogus", "Allow"] {
+            for a in &arg_lists {
+                forms.push(MAttr { directive: d.to_string(), args: a.clone(), trailing_comma: false });
+            }
+        }
+        Attributes { forms }
+    }
+}
+const ATTR_TARGETS: u64 = 14;
+impl RuleFamily for Attributes {
+    fn name(&self) -> String {
+        format!("attributes/{} forms of the known (and two unknown) directives x {} targets x {{once, twice}}", self.forms.len(), ATTR_TARGETS)
+    }
+    fn len(&self) -> u64 {
+        self.forms.len() as u64 * ATTR_TARGETS * 2
+    }
+    fn get(&self, idx: u64) -> (Program, String) {
+        let twice = idx % 2 == 1;
+        let target = (idx / 2) % ATTR_TARGETS;
+        let a = &self.forms[(idx / 2 / ATTR_TARGETS) as usize];
+        let mut attrs = vec![a.clone()];
+        if twice {
+            attrs.push(a.clone());
+        }
+        let mut f = MFile::module("M");
+        let mut s = st("S", vec![MField::new("f", MType::prim("int32"))]);
+        let mut i = iface("I", vec![], vec![op("o", vec![MParam::new("p", MType::prim("int32"))], MRet::None), op("r", vec![], MRet::Tuple(vec![MParam::new("x", MType::prim("int32")), MParam::new("y", MType::prim("int32"))]))]);
+        let mut e = en("E", Some(MType::prim("uint8")), vec![enumerator("A")]);
+        let mut c = custom("C");
+        let mut al = alias("A", MType::prim("int32"));
+        match target {
+            0 => f.file_attrs = attrs,
+            1 => f.module.as_mut().unwrap().attrs = attrs,
+            2 => s.common_mut().attrs = attrs,
+            3 => {
+                if let MDef::Struct(x) = &mut s {
+                    x.fields[0].c.attrs = attrs;
+                }
+            }
+            4 => {
+                if let MDef::Struct(x) = &mut s {
+                    x.fields[0].ty.attrs = attrs;
+                }
+            }
+            5 => i.common_mut().attrs = attrs,
+            6 => {
+                if let MDef::Interface(x) = &mut i {
+                    x.ops[0].c.attrs = attrs;
+                }
+            }
+            7 => {
+                if let MDef::Interface(x) = &mut i {
+                    x.ops[1].c.attrs = attrs;
+                }
+            }
+            8 => {
+                if let MDef::Interface(x) = &mut i {
+                    x.ops[0].params[0].attrs = attrs;
+                }
+            }
+            9 => {
+                if let MDef::Interface(x) = &mut i {
+                    if let MRet::Tuple(ps) = &mut x.ops[1].ret {
+                        ps[0].attrs = attrs;
+                    }
+                }
+            }
+            10 => e.common_mut().attrs = attrs,
+            11 => {
+                if let MDef::Enum(x) = &mut e {
+                    x.enumerators[0].c.attrs = attrs;
+                }
+            }
+            12 => c.common_mut().attrs = attrs,
+            _ => al.common_mut().attrs = attrs,
+        }
+        f.defs.extend([s, i, e, c, al]);
+        (vec![f], format!("[{}{}] x{} on target {target}", a.directive, a.args.as_ref().map(|x| format!("({})", x.iter().map(|y| y.value()).collect::<Vec<_>>().join(","))).unwrap_or_default(), if twice { 2 } else { 1 }))
+    }
+}
+
+/// Integer literal well-formedness.
+pub struct Literals;
+const LITS: [(&str, i128); 14] = [
+    ("0x", 0),
+    ("0b", 0),
+    ("0b102", 0),
+    ("0xFG", 0),
+    ("12a", 0),
+    ("1__0", 10),
+    ("0x_1", 1),
+    ("170141183460469231731687303715884105727", i128::MAX),
+    ("170141183460469231731687303715884105728", 0),
+    ("0xFFFFFFFFFFFFFFFFFFFFFFFFFFFFFFFFF", 0),
+    ("00017", 17),
+    ("0b_", 0),
+    ("9_", 9),
+    ("0X1F", 0),
+];
+impl RuleFamily for Literals {
+    fn name(&self) -> String {
+        "integer-literals/malformed and extreme literals as enumerator values and tags".into()
+    }
+    fn len(&self) -> u64 {
+        LITS.len() as u64 * 3
+    }
+    fn get(&self, idx: u64) -> (Program, String) {
+        let (s, v) = LITS[(idx / 3) as usize];
+        let mut f = MFile::module("M");
+        match idx % 3 {
+            0 => f.defs.push(en("E", Some(MType::prim("uint64")), vec![enumerator_v("A", MInt::spelled(v, s))])),
+            1 => f.defs.push(en("E", Some(MType::prim("int64")), vec![enumerator_v("A", MInt::spelled(-v, &format!("-{s}")))])),
+            _ => {
+                let mut fl = MField::new("t", MType::prim("int32").opt());
+                fl.tag = Some(MInt::spelled(v, s));
+                f.defs.push(st("S", vec![fl]));
+            }
+        }
+        (vec![f], format!("literal {s}"))
+    }
+}
+
+/// Single-rule violators used for the deviation-bounded pairs.
+pub const N_VIOLATORS: usize = 30;
+pub fn violator(k: usize, i: usize) -> MDef {
+    let n = |b: &str| format!("{b}{i}");
+    let i32t = || MType::prim("int32");
+    match k {
+        0 => st(&n("VTagNonOpt"), vec![MField::tagged("a", 1, i32t())]),
+        1 => st(&n("VTagDup"), vec![MField::tagged("a", 1, i32t().opt()), MField::tagged("b", 1, i32t().opt())]),
+        2 => st(&n("VTagBig"), vec![MField { c: MCommon::new("a"), tag: Some(MInt::dec(2147483648)), ty: i32t().opt() }]),
+        3 => st(&n("VTagNeg"), vec![MField { c: MCommon::new("a"), tag: Some(MInt::spelled(-1, "-1")), ty: i32t().opt() }]),
+        4 => cst(&n("VCompactTag"), vec![MField::tagged("a", 1, i32t().opt())]),
+        5 => cst(&n("VCompactEmpty"), vec![]),
+        6 => en(&n("VEnumDup"), None, vec![enumerator_v("A", MInt::dec(1)), enumerator_v("B", MInt::dec(1))]),
+        7 => en(&n("VEnumRange"), Some(MType::prim("uint8")), vec![enumerator_v("A", MInt::dec(256))]),
+        8 => en(&n("VEnumNeg"), None, vec![enumerator_v("A", MInt::spelled(-1, "-1"))]),
+        9 => en(&n("VEnumFloat"), Some(MType::prim("float32")), vec![enumerator("A")]),
+        10 => en(&n("VEnumOptU"), Some(MType::prim("uint8").opt()), vec![enumerator("A")]),
+        11 => en(&n("VEnumFieldsBacked"), Some(MType::prim("uint8")), vec![MEnumerator { c: MCommon::new("A"), fields: Some(vec![MField::new("x", i32t())]), value: None }]),
+        12 => en(&n("VEnumEmpty"), None, vec![]),
+        13 => {
+            let mut d = en(&n("VEnumCompactBacked"), Some(MType::prim("uint8")), vec![enumerator("A")]);
+            if let MDef::Enum(e) = &mut d {
+                e.compact = true;
+            }
+            d
+        }
+        14 => {
+            let mut d = en(&n("VEnumCompactUnchecked"), None, vec![enumerator("A")]);
+            if let MDef::Enum(e) = &mut d {
+                e.compact = true;
+                e.unchecked = true;
+            }
+            d
+        }
+        15 => st(&n("VKeyFloat"), vec![MField::new("a", MType::dict(MType::prim("float64"), i32t()))]),
+        16 => st(&n("VKeyOpt"), vec![MField::new("a", MType::dict(i32t().opt(), i32t()))]),
+        17 => st(&n("VKeySeq"), vec![MField::new("a", MType::dict(MType::seq(i32t()), i32t()))]),
+        18 => st(&n("VKeyStruct"), vec![MField::new("a", MType::dict(MType::named("Lib::HS"), i32t()))]),
+        19 => {
+            let mut p = MParam::new("a", i32t());
+            p.stream = true;
+            iface(&n("VStreamNotLast"), vec![], vec![op("o", vec![p, MParam::new("b", i32t())], MRet::None)])
+        }
+        20 => {
+            let mut p = MParam::new("a", i32t());
+            p.stream = true;
+            let mut q = MParam::new("b", i32t());
+            q.stream = true;
+            iface(&n("VStreamTwo"), vec![], vec![op("o", vec![p, q], MRet::None)])
+        }
+        21 => iface(&n("VTuple1"), vec![], vec![op("o", vec![], MRet::Tuple(vec![MParam::new("x", i32t())]))]),
+        22 => iface(&n("VInherited"), vec![MType::named("Lib::HI")], vec![op("hop", vec![], MRet::None)]),
+        23 => alias(&n("VAliasOpt"), i32t().opt()),
+        24 => {
+            let mut d = st(&n("VAttrTarget"), vec![MField::new("a", i32t())]);
+            *d.common_mut() = d.common().clone().attr(MAttr::new("oneway"));
+            d
+        }
+        25 => {
+            let mut d = st(&n("VAttrUnknown"), vec![]);
+            *d.common_mut() = d.common().clone().attr(MAttr::new("nosuchattribute"));
+            d
+        }
+        26 => {
+            let mut o = op("o", vec![], MRet::None);
+            o.c = o.c.attr(MAttr::with("compress", vec![MArg::Ident("Args".into())])).attr(MAttr::with("compress", vec![MArg::Ident("Return".into())]));
+            iface(&n("VAttrRepeat"), vec![], vec![o])
+        }
+        27 => {
+            let mut d = st(&n("VAllowBad"), vec![]);
+            *d.common_mut() = d.common().clone().attr(MAttr::with("allow", vec![MArg::Ident("Everything".into())]));
+            d
+        }
+        28 => st(&n("VDupField"), vec![MField::new("a", i32t()), MField::new("a", i32t())]),
+        29 => {
+            let mut o = op("o", vec![], MRet::Single { tag: None, stream: false, ty: i32t() });
+            o.c = o.c.attr(MAttr::new("oneway"));
+            iface(&n("VOnewayReturns"), vec![], vec![o])
+        }
+        _ => unreachable!(),
+    }
+}
+
+/// All sequences of `depth` items over (40 valid constructs + 30 violators) containing at least one violator.
+pub struct Pairs {
+    pub depth: usize,
+}
+impl RuleFamily for Pairs {
+    fn name(&self) -> String {
+        format!("violation-{}/all ordered {} over 40 well-formed constructs + 30 single-rule violators", if self.depth == 2 { "pairs" } else { "triples" }, if self.depth == 2 { "pairs" } else { "triples of violators" })
+    }
+    fn len(&self) -> u64 {
+        if self.depth == 2 {
+            70 * 70
+        } else {
+            30 * 30 * 30
+        }
+    }
+    fn get(&self, idx: u64) -> (Program, String) {
+        let base = if self.depth == 2 { 70 } else { 30 };
+        let mut ks = vec![];
+        let mut i = idx;
+        for _ in 0..self.depth {
+            ks.push((i % base) as usize);
+            i /= base;
+        }
+        let mut f = MFile::module("M");
+        for (j, k) in ks.iter().enumerate() {
+            let k = if self.depth == 2 { *k } else { *k + 40 };
+            if k < 40 {
+                f.defs.push(gen::construct(k, j, "Lib::"));
+            } else {
+                f.defs.push(violator(k - 40, j));
+            }
+        }
+        (vec![f, gen::lib_file()], format!("items {ks:?}"))
+    }
+}
+
+pub fn families(tier: &str) -> Vec<Box<dyn Family>> {
+    let mut v: Vec<Box<dyn RuleFamily>> = vec![Box::new(Names), Box::new(Streams), Box::new(Literals), Box::new(EnumBounds), Box::new(Keys::new()), Box::new(Attributes::new()), Box::new(Tags), Box::new(Pairs { depth: 2 })];
+    if tier != "quick" {
+        v.push(Box::new(Pairs { depth: 3 }));
+    }
+    v.into_iter().map(|f| Box::new(RuleCheck { inner: f }) as Box<dyn Family>).collect()
 }
